@@ -211,6 +211,13 @@ class G:
         if k == 14:
             self.f.add("lit:bool")
             return self.pick(("TRUE", "FALSE"))
+        if self.b(1, 3):
+            # a NEGATED range predicate continued by another range operator: the parser turns x NOT IN (..) into NOT (x IN (..)),
+            # which binds looser than the operator that follows, so the generator has to keep the grouping explicit
+            head = self.pick((f"{self.column()} NOT IN ({self.literal()})", f"{self.column()} NOT BETWEEN 1 AND 2", f"{self.column()} NOT LIKE 'a%'"))
+            tail = self.pick(("BETWEEN 2 AND 3", "LIKE 'x'", "IS NULL", "IN (TRUE)", "IS NOT NULL", "NOT IN (FALSE)", "NOT BETWEEN 0 AND 1"))
+            self.f.add("range:chained-after-negation")
+            return f"{head} {tail}"
         self.f.add("cmp")
         return f"{self.column()} = {self.literal()}"
 
